@@ -350,3 +350,48 @@ where
         barrier
     }
 }
+
+// verification-only hooks (see /verif); compiled only under the guard cfg
+#[cfg(oxfordcontrol_clarabel_rs_verif)]
+#[allow(missing_docs)]
+pub mod verif_hooks_cc {
+    use super::*;
+
+    /// Same as `CompositeCone::new`, except that the `type_counts` map (used only for printing)
+    /// is left empty: inserting into a HashMap cannot be executed by the model checker.
+    /// Translation-validated natively against `CompositeCone::new` by /verif.
+    pub fn new_without_type_counts<T: FloatT>(types: &[SupportedConeT<T>]) -> CompositeCone<T> {
+        let mut cones: Vec<SupportedCone<T>> = Vec::with_capacity(types.len());
+        let mut _is_symmetric = true;
+        for t in types.iter() {
+            let cone = make_cone(t);
+            _is_symmetric = _is_symmetric && cone.is_symmetric();
+            cones.push(cone);
+        }
+        let numel = cones.iter().map(|c| c.numel()).sum();
+        let degree = cones.iter().map(|c| c.degree()).sum();
+        let rng_cones = make_rng_cones(&cones);
+        let rng_blocks = make_rng_blocks(&cones);
+        CompositeCone {
+            cones,
+            type_counts: HashMap::new(),
+            numel,
+            degree,
+            rng_cones,
+            rng_blocks,
+            _is_symmetric,
+        }
+    }
+    pub fn rng_cones<T: FloatT>(c: &CompositeCone<T>) -> &[Range<usize>] {
+        &c.rng_cones
+    }
+    pub fn rng_blocks<T: FloatT>(c: &CompositeCone<T>) -> &[Range<usize>] {
+        &c.rng_blocks
+    }
+    pub fn is_symmetric_flag<T: FloatT>(c: &CompositeCone<T>) -> bool {
+        c._is_symmetric
+    }
+    pub fn cone_at<T: FloatT>(c: &mut CompositeCone<T>, i: usize) -> &mut SupportedCone<T> {
+        &mut c.cones[i]
+    }
+}
